@@ -31,6 +31,8 @@ type E2ECase struct {
 	// Kube: number of (ungrouped) kubernetes bindings of the limited hook: their Synchronization executions at
 	// start-up are executions of the hook like any other
 	Kube int `json:"kube,omitempty"`
+	// Webhook: the limited hook also has a kubernetesValidating binding (requests for it are not generated)
+	Webhook bool `json:"webhook,omitempty"`
 }
 
 func genE2E(t *rapid.T) E2ECase {
@@ -44,6 +46,7 @@ func genE2E(t *rapid.T) E2ECase {
 		SharedQueue: rapid.Bool().Draw(t, "shared"),
 		Queues:      rapid.SampledFrom([]int{1, 1, 2, 3}).Draw(t, "queues"),
 		Kube:        rapid.SampledFrom([]int{0, 0, 0, 3, 4}).Draw(t, "kube"),
+		Webhook:     rapid.IntRange(0, 2).Draw(t, "webhook") == 0,
 	}
 }
 
@@ -68,6 +71,9 @@ func runE2E(c E2ECase) (ev.Info, error) {
 	}
 	for j := 0; j < c.Kube; j++ {
 		d.Kube = append(d.Kube, hcfg.Kube{Name: fmt.Sprintf("k%d", j), Kind: "ConfigMap", ApiVersion: "v1"})
+	}
+	if c.Webhook {
+		d.Validating = []hcfg.Adm{{Name: "limited.example.com", Rules: []hcfg.AdmRule{{Operations: []string{"CREATE"}, APIGroups: []string{""}, APIVersions: []string{"v1"}, Resources: []string{"pods"}}}}}
 	}
 	if c.HasSettings {
 		d.Settings = &hcfg.Settings{Interval: fmt.Sprintf("%dms", c.IntervalMs), Burst: c.Burst}
@@ -161,7 +167,7 @@ func runE2E(c E2ECase) (ev.Info, error) {
 	return info, nil
 }
 
-const ruleE2E = "the real operator with a scripted hook carrying settings (executionMinInterval 200-400ms, executionBurst 1-2, or none) in its own or the main queue (shared with an unthrottled hook), in half of the cases with 2-3 schedule bindings in queues of their own (the limit is per hook), in 2 of 5 cases with 3-4 ungrouped kubernetes bindings whose Synchronization executions at start-up count as executions; 2-6 tick rounds injected as a burst or with gaps; the first execution fails 0-4 times and is retried; the operator's shutdown wait (WaitQueuesTimeout) is set to 150ms, below every interval; execution starts are taken from the hook's own log; oracle: every window of starts satisfies count <= B + ceil(T/I) + 1 (one token of slack for timer lateness; the exact bound is decided on synthetic time by the limiter part). Real clock, sampled. Non-trivial: >= B+2 executions of a limited hook."
+const ruleE2E = "the real operator with a scripted hook carrying settings (executionMinInterval 200-400ms, executionBurst 1-2, or none) in its own or the main queue (shared with an unthrottled hook), in half of the cases with 2-3 schedule bindings in queues of their own (the limit is per hook), in 2 of 5 cases with 3-4 ungrouped kubernetes bindings whose Synchronization executions at start-up count as executions; in a third of the cases the hook also declares a kubernetesValidating binding; 2-6 tick rounds injected as a burst or with gaps; the first execution fails 0-4 times and is retried; the operator's shutdown wait (WaitQueuesTimeout) is set to 150ms, below every interval; execution starts are taken from the hook's own log; oracle: every window of starts satisfies count <= B + ceil(T/I) + 1 (one token of slack for timer lateness; the exact bound is decided on synthetic time by the limiter part). Real clock, sampled. Non-trivial: >= B+2 executions of a limited hook."
 
 func TestE2E(t *testing.T) {
 	ev.Main(t, ev.Spec[E2ECase]{Property: "C18", Part: "e2e", Rule: ruleE2E, Gen: genE2E, Run: runE2E, Journal: true})
